@@ -209,6 +209,63 @@ def den : Op K → Vec K → Vec K
 
 end
 
+/-! ### Modelled leaves: the dual-use `_call` bodies of `default_ops.py` -/
+
+section
+variable {K : Type} [Add K] [Mul K] [OfNat K 0]
+
+/-- `ScalingOperator._call` / `IdentityOperator`: `out = scalar * x` | `out.lincomb(scalar, x)`;
+`return out`. -/
+def scalingLeaf (c : K) : Leaf K :=
+  { sig := .dual, raw := false, phi := fun v i => c * v i,
+    oop := fun x s => alloc s (fun i => c * s.mem x i),
+    ip := fun x y s => (.out, s.write y (fun i => c * s.mem x i)) }
+
+/-- `ConstantOperator._call`: `return range.element(copy(constant))` | `out.assign(constant)`. -/
+def constLeaf (v : Vec K) : Leaf K :=
+  { sig := .dual, raw := false, phi := fun _ => v,
+    oop := fun _ s => alloc s v,
+    ip := fun _ y s => (.none, s.write y v) }
+
+/-- `MultiplyOperator._call` (element multiplicand): `return x * multiplicand` |
+`out.assign(multiplicand * x)` (the product is a new object). -/
+def multLeaf (v : Vec K) : Leaf K :=
+  { sig := .dual, raw := false, phi := fun x i => x i * v i,
+    oop := fun x s => alloc s (fun i => s.mem x i * v i),
+    ip := fun x y s =>
+      let (t, s1) := alloc s (fun i => v i * s.mem x i)
+      (.none, s1.write y (s1.mem t)) }
+
+/-- `PowerOperator._call`: `return x ** p` | `out.assign(x); out **= p`. -/
+def powLeaf (pw : K → K) : Leaf K :=
+  { sig := .dual, raw := false, phi := fun x i => pw (x i),
+    oop := fun x s => alloc s (fun i => pw (s.mem x i)),
+    ip := fun x y s =>
+      let s1 := s.write y (s.mem x)
+      (.none, s1.write y (fun i => pw (s1.mem y i))) }
+
+/-- `ZeroOperator._call` (domain == range): `out = 0 * x` | `out.lincomb(0, x)`; `return out`. -/
+def zeroLeaf : Leaf K :=
+  { sig := .dual, raw := false, phi := fun x i => 0 * x i,
+    oop := fun x s => alloc s (fun i => 0 * s.mem x i),
+    ip := fun x y s => (.out, s.write y (fun i => 0 * s.mem x i)) }
+
+/-- `ComplexModulusSquared._call(x)` on a real space (out-of-place only; the in-place call
+goes through `_default_call_in_place`): `return x.real ** 2 + x.imag ** 2`, `x.imag = 0`. -/
+def modSqLeaf : Leaf K :=
+  { sig := .oop, raw := false, phi := fun x i => x i * x i + 0 * 0,
+    oop := fun x s => alloc s (fun i => s.mem x i * s.mem x i + 0 * 0),
+    ip := fun _ _ s => (.other, s) }
+
+/-- Synthetic leaf for the dispatch correspondence: body `2·x`-like map `f`, any signature
+class, any return behaviour of the in-place body, raw or element out-of-place result. -/
+def synthLeaf (sg : Sig) (ret : Ret) (raw : Bool) (f : Vec K → Vec K) : Leaf K :=
+  { sig := sg, raw := raw, phi := f,
+    oop := fun x s => alloc s (f (s.mem x)),
+    ip := fun x y s => (ret, s.write y (f (s.mem x))) }
+
+end
+
 /-! ### Leaves built from the straight-line programs of `ProxProg` -/
 
 /-- Local view of the store for a program body: buffer 0 is `x`, buffer 1 is `out` (when
